@@ -158,4 +158,44 @@ MapWellFormed(root) ==
   /\ MNextLinks(root)
   /\ root.cnt = Len(MEntries(root))
 MapSizesAgree(root) == \A n \in MOwnNodes(root) : MDataNode(n) /\ MMetaNode(n)
+
+\* ------------------------------------------------------------- nested containers
+\* elements (array elements, map keys and values) of one container tree, with the limit that applies to each
+RECURSIVE MValueElems(_), MValueElemsSeq(_)
+MValueElemsSeq(el) == IF el = <<>> THEN <<>>
+                      ELSE LET x == Head(el) IN
+                           (CASE x.t = "s" -> << [e |-> x.v[1], lim |-> MaxInlineMapValue(T, x.k[1].sz)] >>
+                              [] x.t = "g" -> MValueElems(x.els[1])
+                              [] x.t = "x" -> MValueElems(x.x[1].els[1])
+                              [] OTHER -> <<>>) \o MValueElemsSeq(Tail(el))
+MValueElems(E) == MValueElemsSeq(E.el)
+RECURSIVE MValueElemsLeaves(_)
+MValueElemsLeaves(ls) == IF ls = <<>> THEN <<>> ELSE MValueElems(Head(ls).els[1]) \o MValueElemsLeaves(Tail(ls))
+ChildSlots(root) ==      \* <<[e, lim]>> for every element that may hold a nested container
+  IF IsArr(root) THEN LET es == AFlattenElems(root) IN [i \in 1..Len(es) |-> [e |-> es[i], lim |-> MaxInlineArrayElem(T)]]
+  ELSE MValueElemsLeaves(MLeaves(root))
+
+IsContainerElem(e) == e.c \in {"A", "M", "RA", "RM"}
+\* every container tree reachable from a root (the root itself, inlined children, referenced children), recursively
+RECURSIVE Containers(_)
+Containers(root) ==
+  LET cs == ChildSlots(root) IN
+  {root} \cup UNION {Containers(cs[i].e.ch[1]) : i \in {j \in 1..Len(cs) : IsContainerElem(cs[j].e)}}
+
+ContainerWellFormed(c) == IF IsArr(c) THEN ArrayWellFormed(c) ELSE MapWellFormed(c)
+ForestWellFormed(root) == \A c \in Containers(root) : ContainerWellFormed(c)
+
+\* C10: a child is stored inline exactly when it is a single slab whose inlined size fits the parent's per-element limit
+InlinedSizeOf(c) == IF c.k = "d" THEN c.sz - (IF c.inl THEN ArrayInlinedPrefix ELSE ArrayRootDataPrefix) + ArrayInlinedPrefix
+                    ELSE c.sz - (IF c.inl THEN MapInlinedPrefix ELSE MapRootDataPrefix) + MapInlinedPrefix
+SlotOK(s) ==
+  LET e == s.e IN
+  IF ~IsContainerElem(e) THEN TRUE
+  ELSE LET c == e.ch[1]
+           wrapper == e.sz - (IF e.c \in {"A", "M"} THEN c.sz ELSE SlabIDStorableSize)
+           fits == c.k \in {"d", "md"} /\ InlinedSizeOf(c) + wrapper <= s.lim
+       IN /\ (e.c \in {"A", "M"}) = fits           \* inlined <=> fits
+          /\ (e.c \in {"A", "M"}) = c.inl          \* the child's own flag agrees with where it is stored
+          /\ c.root                                \* a nested container is the root of a value
+InlineIffFits(root) == \A c \in Containers(root) : \A i \in 1..Len(ChildSlots(c)) : SlotOK(ChildSlots(c)[i])
 =============================================================================
